@@ -72,6 +72,10 @@ EXPRS = [
     ('....packages', 'Package', ['Class', 'Method'], [1]),
     ('.....packages.classes,..classes', 'Class', ['Class', 'Method'], [1, 2]),
     ('+p:....classes,...classes', 'Class', ['Method'], [1]),
+    # a '*' group mixing a non-consuming and a consuming step over one attribute (round 10, C11m): the
+    # same object is reached with different numbers of name parts left
+    ('(~packages,packages)*.classes', 'Class', ['Class'], [1, 2, 3]),
+    ('(packages,~packages)*.classes', 'Class', ['Class', 'Method'], [1, 2]),
 ]
 
 
